@@ -242,7 +242,8 @@ func checkValue(s *vals.Spec, via string) (ok bool, class, shape, detail string)
 
 // ---- universes -------------------------------------------------------------------
 
-var idAlpha = []string{"a", "/", `"`, "@", "[", "]", `\`, "^", ":", "é", "%"}
+// "n" after the backslash: the two characters an escaping scheme for line feeds would claim
+var idAlpha = []string{"a", "/", `"`, "@", "[", "]", `\`, "n", "^", ":", "é", "%"}
 
 func anchors(thorough bool) []time.Time {
 	walls := [][6]int{{2006, 1, 2, 15, 4, 5}, {1, 1, 1, 0, 0, 0}, {1677, 9, 21, 0, 12, 43}, {1970, 1, 1, 0, 0, 0},
@@ -292,7 +293,9 @@ func textValues(thorough bool) []string {
 	out := vals.StringsUpTo(alpha, 0, max)
 	out = append(out, `"^^type:`, `a"^^type:`, `"^^type:text`, `"^^type:bool`, `x"^^type:int64`, `"^^type:"^^type:`,
 		`"@[`, `"@[]`, `^^type:`, `^^type:text`, `"^^`, "some random string", "true", "0", "[]", "[1 2]", "/t<a>", `"p"@[]`,
-		"100%s", "%d%%", "%!v(", " leading", "trailing ", "tab\tinside", "two\nlines", "\n", "ends with quote\"", "日本語", " nbsp ")
+		"100%s", "%d%%", "%!v(", " leading", "trailing ", "tab\tinside", "two\nlines", "\n", "ends with quote\"", "日本語", " nbsp ",
+		// texts that already look escaped: a printed form must not read them as the escape
+		`C:\new\table.txt`, `\t`, `\r`, `\\n`, `\"`, `\u00e9`, `\x41`, `\0`, "a\\\nb", `&quot;`, `%0A`, `\\`)
 	return out
 }
 
